@@ -397,7 +397,9 @@ func runC03On(c c03Case, tgt func(user string) gwc.Target, o gwOpts, P int) *Vio
 		if ch == nil || ch.Status != 0 || len(accepts) != 1 {
 			return viol("c03/allowed-not-connected", "policy allows this live host, but no channel was created: %s", desc)
 		}
-	} else {
+	} else if len(eps) == 0 {
+		// the name denotes no address at all (not an IP literal, not localhost, unresolvable here): success is
+		// impossible. A loopback endpoint outside the harness's three ports may belong to anybody: no claim.
 		if ch != nil && ch.Status == 0 {
 			return viol("c03/success-without-connection", "channel response reports success although %q is not connectable: %s", hp, desc)
 		}
